@@ -409,6 +409,18 @@ func (g *G) msg(kind string, v *view, aware bool, who int, depth int) script.Msg
 				r = g.other(s)
 			}
 		}
+		if who == -1 && g.chance(6) { // … now and then a pair whose stream has run out (claimed or not): refused, the record stays
+			var old []streamInfo
+			for _, x := range v.streams {
+				if x.s >= 0 && x.r != -1 && !x.zero.After(v.now) {
+					old = append(old, x)
+				}
+			}
+			if len(old) > 0 {
+				x := old[g.rng.Intn(len(old))]
+				r, s = x.r, x.s
+			}
+		}
 		denom := g.pick("nund", "nund", "atoken", "btoken")
 		rate := []int64{1, 1 + int64(g.rng.Intn(50)), 1000, 1_000_000, 1_000_000_000}[g.rng.Intn(5)]
 		dur := []int64{60, 61, 100, 3600, 86400, 31536000}[g.rng.Intn(6)]
